@@ -320,6 +320,11 @@ class _ExprCanon(ast.NodeTransformer):
 
     def visit_Compare(self, node: ast.Compare):
         self.generic_visit(node)
+        # two singleton constants compared by identity (`None is None` left behind by substituting a default)
+        if len(node.ops) == 1 and isinstance(node.ops[0], (ast.Is, ast.IsNot)) and isinstance(node.left, ast.Constant) and isinstance(node.comparators[0], ast.Constant) \
+                and all(c_.value is None or isinstance(c_.value, bool) for c_ in (node.left, node.comparators[0])):
+            same = node.left.value is node.comparators[0].value
+            return _loc(ast.Constant(value=same if isinstance(node.ops[0], ast.Is) else not same), node)
         # `N is N` / `N is not N` for one plain name  ->  True / False  (a sentinel threaded through an inlined helper)
         if len(node.ops) == 1 and isinstance(node.ops[0], (ast.Is, ast.IsNot)) and isinstance(node.left, ast.Name) \
                 and isinstance(node.comparators[0], ast.Name) and node.left.id == node.comparators[0].id:
@@ -562,6 +567,19 @@ class BlockCanon:
                 stmts[i:i + 1] = st.body
                 self.changed = True
                 continue
+            if enabled("C2") and isinstance(st, ast.If) and not st.orelse and all(isinstance(x_, ast.Pass) for x_ in st.body) and is_pure(st.test) and len(stmts) > 1:
+                del stmts[i]  # `if c: pass` (what it guarded was moved away)
+                self.changed = True
+                continue
+            if enabled("C2") and isinstance(st, ast.Assert) and isinstance(st.test, ast.Constant) and st.test.value is True and len(stmts) > 1:
+                del stmts[i]  # `assert True` (a folded test)
+                self.changed = True
+                continue
+            if enabled("C2") and isinstance(st, (ast.Raise, ast.Return, ast.Continue, ast.Break)) and i + 1 < len(stmts) \
+                    and not any(isinstance(x, FuncNode + (ast.ClassDef,)) for s_ in stmts[i + 1:] for x in ast.walk(s_)) \
+                    and not any(isinstance(x, (ast.Yield, ast.YieldFrom)) for s_ in stmts[i + 1:] for x in ast.walk(s_)):
+                del stmts[i + 1:]  # unreachable after an unconditional exit (left behind by a folded test)
+                self.changed = True
             # ---- walrus in leading position of an `if` test / assignment / return  ->  plain assignment first (C5)
             if enabled("C5") and isinstance(st, (ast.If, ast.Assign, ast.Return, ast.Expr)):
                 holder = "test" if isinstance(st, ast.If) else "value"
@@ -1003,7 +1021,11 @@ class BlockCanon:
         if call is not None and is_pure(call.func) and not (isinstance(st, ast.Assign) and not (len(st.targets) == 1 and isinstance(st.targets[0], ast.Name))):
             slots = [("a", j, a_) for j, a_ in enumerate(call.args)] + [("k", j, k_.value) for j, k_ in enumerate(call.keywords)]
             for pos, (kind_, j, a_) in enumerate(slots):
-                if isinstance(a_, ast.IfExp) and is_pure(a_.test) and all(is_pure(x_) for _k, _j, x_ in slots[:pos]):
+                early_trivial = all(isinstance(x_, (ast.Name, ast.Constant)) for _k, _j, x_ in slots[:pos]) and (
+                    isinstance(call.func, ast.Name) or (isinstance(call.func, ast.Attribute) and isinstance(call.func.value, ast.Name)))
+                if isinstance(a_, ast.IfExp) and all(is_pure(x_) for _k, _j, x_ in slots[:pos]) and (is_pure(a_.test) or early_trivial):
+                    # (an effectful test may move in front of the callee lookup / plain-name arguments: it is still the first
+                    # effectful thing evaluated, and it cannot rebind the caller's locals)
                     def variant(val):
                         c2 = copy.deepcopy(st)
                         cc = c2.value
@@ -1019,6 +1041,26 @@ class BlockCanon:
             ie = st.value.value
             a = _loc(ast.Expr(value=_loc(ast.Yield(value=ie.body), st)), st)
             b = _loc(ast.Expr(value=_loc(ast.Yield(value=ie.orelse), st)), st)
+            return [_loc(ast.If(test=simplify_test(ie.test), body=[a], orelse=[b]), st)]  # type: ignore[list-item]
+        # `yield A + (X if c else Y)` / `return ...` / `v = ...`: a choice inside a binary operation, its test reading plain
+        # locals only (so that it may be evaluated before A)
+        holder = st.value if isinstance(st, ast.Expr) and isinstance(st.value, ast.Yield) else st
+        val = getattr(holder, "value", None)
+        if isinstance(st, (ast.Expr, ast.Return, ast.Assign)) and isinstance(val, ast.BinOp) and (not isinstance(st, ast.Expr) or holder is not st) \
+                and not (isinstance(st, ast.Assign) and not (len(st.targets) == 1 and isinstance(st.targets[0], ast.Name))):
+            for side in ("right", "left"):
+                ie = getattr(val, side)
+                if isinstance(ie, ast.IfExp) and is_pure(ie.test) and not any(isinstance(x, (ast.Attribute, ast.Subscript)) for x in ast.walk(ie.test)):
+                    def variant2(v_):
+                        c2 = copy.deepcopy(st)
+                        h2 = c2.value if isinstance(c2, ast.Expr) else c2
+                        setattr(h2.value, side, copy.deepcopy(v_))
+                        return c2
+                    return [_loc(ast.If(test=simplify_test(copy.deepcopy(ie.test)), body=[variant2(ie.body)], orelse=[variant2(ie.orelse)]), st)]  # type: ignore[list-item]
+        if isinstance(st, ast.Expr) and isinstance(st.value, ast.YieldFrom) and isinstance(st.value.value, ast.IfExp):
+            ie = st.value.value
+            a = _loc(ast.Expr(value=_loc(ast.YieldFrom(value=ie.body), st)), st)
+            b = _loc(ast.Expr(value=_loc(ast.YieldFrom(value=ie.orelse), st)), st)
             return [_loc(ast.If(test=simplify_test(ie.test), body=[a], orelse=[b]), st)]  # type: ignore[list-item]
         if isinstance(st, ast.Return) and isinstance(st.value, ast.IfExp):
             ie = st.value
@@ -1490,7 +1532,9 @@ class AliasInliner:
                     break
                 pu = path[id(su)]
                 # a `with` body is a critical section (`with tree:`): a heap read must not be moved into it
-                if (rhs_attrs or has_sub) and any(arm == "With.body" and not any(o2 == o for o2, _a2, _i2 in pd) for o, arm, _i in pu):
+                # (a method looked up on an object - `self.to_list_iter` - is not a read of the tree's state)
+                state_attrs = {a_ for a_ in rhs_attrs if a_ not in self.may_write or ("<prop>" + a_) in self.may_write}
+                if (state_attrs or has_sub) and any(arm == "With.body" and not any(o2 == o for o2, _a2, _i2 in pd) for o, arm, _i in pu):
                     ok = False
                     break
                 for w in writes:
@@ -2382,6 +2426,96 @@ class TailSinker:
         return False
 
 
+# --------------------------------------------------------------------------- C8c chosen callable
+class ChosenCallable:
+    """C8c: `if c: F = A [...] else: F = B [...]` where the local F is bound nowhere else and every later use of F is a
+    call with one positional argument  ->  each `F(x)` becomes `A(x) if c else B(x)` (lambdas and the standard callable
+    constructors applied, C8), and the two bindings go.  It undoes "pick the renderer / matcher once, call it in the
+    loop".  Side conditions: c, A and B are pure; no name they read is rebound anywhere in the function after the If
+    (textually), F is not read by a nested function."""
+
+    def __init__(self, fn) -> None:
+        self.fn = fn
+        self.changed = False
+
+    def run(self) -> None:
+        for _ in range(4):
+            if not self._one():
+                break
+            self.changed = True
+
+    def _one(self) -> bool:
+        fn = self.fn
+        own = list(_own_nodes(fn))
+        params = _params(fn)
+        for st in own:
+            if not (isinstance(st, ast.If) and st.orelse and is_pure(st.test)):
+                continue
+
+            def binds(block):
+                out = {}
+                for s_ in block:
+                    if isinstance(s_, ast.Assign) and len(s_.targets) == 1 and isinstance(s_.targets[0], ast.Name):
+                        out[s_.targets[0].id] = s_
+                return out
+
+            ba, bb = binds(st.body), binds(st.orelse)
+            for F in set(ba) & set(bb):
+                if F in params:
+                    continue
+                A, B = ba[F].value, bb[F].value
+                # a branch may first name what it closes over (`template = repr`): resolve plain aliases of the same arm
+                def resolve(e, table):
+                    class R(ast.NodeTransformer):
+                        def visit_Name(self, n):
+                            if isinstance(n.ctx, ast.Load) and n.id in table and n.id != F and is_pure(table[n.id].value) and isinstance(table[n.id].value, (ast.Name, ast.Attribute)):
+                                return copy.deepcopy(table[n.id].value)
+                            return n
+                    return R().visit(copy.deepcopy(e))
+                A, B = resolve(A, ba), resolve(B, bb)
+                if not (is_pure(A) and is_pure(B)) or not all(isinstance(x, (ast.Name, ast.Lambda, ast.Attribute)) or _callable_ctor(x) is not None for x in (A, B)):
+                    continue
+                stores = [n for n in own if isinstance(n, ast.Name) and n.id == F and isinstance(n.ctx, (ast.Store, ast.Del))]
+                if len(stores) != 2:
+                    continue
+                loads = [n for n in ast.walk(fn) if isinstance(n, ast.Name) and n.id == F and isinstance(n.ctx, ast.Load)]
+                own_ids = {id(n) for n in own}
+                if not loads or any(id(n) not in own_ids for n in loads):
+                    continue
+                calls = [c for c in own if isinstance(c, ast.Call) and isinstance(c.func, ast.Name) and c.func.id == F]
+                if len(calls) != len(loads) or any(len(c.args) != 1 or c.keywords or isinstance(c.args[0], ast.Starred) for c in calls):
+                    continue
+                end = getattr(st, "end_lineno", None) or 0
+                if any((getattr(c, "lineno", 0) or 0) <= end for c in calls):
+                    continue  # used inside / before the choice
+                read = {x.id for e in (st.test, A, B) for x in ast.walk(e) if isinstance(x, ast.Name)} - {F}
+                lam_params = {a_.arg for e in (A, B) if isinstance(e, ast.Lambda) for a_ in e.args.args}
+                read -= lam_params
+                if any(isinstance(n, ast.Name) and n.id in read and isinstance(n.ctx, (ast.Store, ast.Del)) and (getattr(n, "lineno", 0) or 0) > end for n in own):
+                    continue
+                if any(isinstance(n, (ast.Global, ast.Nonlocal)) for n in own):
+                    continue
+                # the aliases resolved above must not be used elsewhere than in F's value
+                for c in calls:
+                    a1 = _ExprCanon._apply(copy.deepcopy(A), copy.deepcopy(c.args[0]), c)
+                    b1 = _ExprCanon._apply(copy.deepcopy(B), copy.deepcopy(c.args[0]), c)
+                    new = _loc(ast.IfExp(test=copy.deepcopy(st.test), body=a1, orelse=b1), c)
+                    c.__class__ = ast.IfExp  # replace in place
+                    c.__dict__.clear()
+                    c.__dict__.update(new.__dict__)
+                for blk, tab in ((st.body, ba), (st.orelse, bb)):
+                    blk[:] = [s_ for s_ in blk if s_ is not tab[F]] or [_loc(ast.Pass(), st)]
+                # aliases of the arms that nothing reads any more
+                still = {n.id for n in ast.walk(fn) if isinstance(n, ast.Name) and isinstance(n.ctx, ast.Load)}
+                for blk, tab in ((st.body, ba), (st.orelse, bb)):
+                    blk[:] = [s_ for s_ in blk if not (isinstance(s_, ast.Assign) and len(s_.targets) == 1 and isinstance(s_.targets[0], ast.Name)
+                                                       and s_.targets[0].id not in still and s_.targets[0].id not in params and is_pure(s_.value)
+                                                       and sum(1 for n in own if isinstance(n, ast.Name) and n.id == s_.targets[0].id and isinstance(n.ctx, ast.Store)) == 1)] \
+                        or [_loc(ast.Pass(), st)]
+                return True
+        return False
+
+
 # --------------------------------------------------------------------------- C9b live-range splitting
 class LiveRangeSplitter:
     """C9b: a local that is assigned several times, each time by a plain `v = E` statement whose uses all follow it in
@@ -2596,6 +2730,10 @@ def _canon_function_inner(fn, may_write, single_use: bool = True) -> bool:
             si = SingleUseInliner(fn)
             si.run()
             round_changed |= si.changed
+        if enabled("C8") and single_use:
+            cc_ = ChosenCallable(fn)
+            cc_.run()
+            round_changed |= cc_.changed
         if enabled("C9") and single_use:
             ts = TailSinker(fn)
             ts.run()
@@ -2845,8 +2983,10 @@ def project_new_options(modules: Dict[str, ast.Module]) -> int:
                 keep = []
                 for k in c.keywords:
                     if k.arg is not None and id(k.value) in marked:
-                        ds = [default_of(g, k.arg) for g in cands]
-                        if all(d_ is not None and ast.dump(d_) == ast.dump(k.value) for d_ in ds):
+                        # (a candidate that has no such parameter cannot be the callee of this call)
+                        having = [g for g in cands if any(x.arg == k.arg for x in g.args.posonlyargs + g.args.args + g.args.kwonlyargs)]
+                        ds = [default_of(g, k.arg) for g in having]
+                        if having and all(d_ is not None and ast.dump(d_) == ast.dump(k.value) for d_ in ds):
                             continue
                     keep.append(k)
                 c.keywords = keep
